@@ -340,8 +340,8 @@ zLUMemInit(fact_t fact, void *work, int_t lwork, int m, int n, int_t annz,
     
     info = zLUWorkInit(m, n, panel_size, iwork, dwork, Glu);
     SLU_VHOOK_MEM("M:WorkInit", Glu, "\"ret\":%d,\"iwork\":%lld,\"dwork\":%lld", info,
-		  (long long)((Glu->MemModel == USER && *iwork) ? (char*)*iwork - (char*)Glu->stack.array : 0),
-		  (long long)((Glu->MemModel == USER && *dwork) ? (char*)*dwork - (char*)Glu->stack.array : 0));
+		  (long long)((Glu->MemModel == USER && !info) ? (char*)*iwork - (char*)Glu->stack.array : 0),
+		  (long long)((Glu->MemModel == USER && !info) ? (char*)*dwork - (char*)Glu->stack.array : 0));
     if ( info )
 	return ( info + zmemory_usage(nzlmax, nzumax, nzlumax, n) + n);
     
